@@ -33,6 +33,7 @@ def shards(tier, seed):
     k = 4 if q else 12
     for t in ts[:: max(1, len(ts) // k)][:k]:
         out.append(("toy_%d_%d_%d" % t.curve.key(), dict(kind="toy", key=t.curve.key(), ndig=16 if q else 64)))
+    out.append(("near_recursion_limit", dict(kind="near_limit")))
     return out
 
 
@@ -142,6 +143,8 @@ def judge(ctx, curve, dom, d, k, digest, at, fmt, cls, key, via_hash=None):
 
 def run(ctx, name, kind, **kw):
     rng = ctx.rng
+    if kind == "near_limit":
+        return sigs.near_limit(ctx, rng, ["NIST224p", "NIST521p", "SECP256k1"], ['recover'])
     if kind == "prod":
         c = lib.BY_NAME[kw["cname"]]
         dom = lib.dom_of(c)
